@@ -113,11 +113,21 @@ def run(ctx):
     for oname, mkobj in las_objects():
         for call, kws in (("write", wkw), ("to_csv", ckw)):
             for kname, kw in kws:
-                for own in (True, False):
-                    def factory(mkobj=mkobj, call=call, kw=kw, own=own):
+                for own, prior in ((True, False), (False, False), (True, True), (False, True)):
+                    def factory(mkobj=mkobj, call=call, kw=kw, own=own, prior=prior):
                         las = mkobj()
                         outn[0] += 1
                         path = os.path.join(work, "out%d.txt" % outn[0])
+                        if prior:
+                            # the object has a history: it was written to a path of its own and to a caller's file before
+                            # (outside the tracked call); what lasio remembers from then must not change who closes what now
+                            try:
+                                las.write(os.path.join(work, "prior%d.las" % outn[0]))
+                                las.to_csv(os.path.join(work, "prior%d.csv" % outn[0]))
+                                with handles._real_open(os.path.join(work, "prior%d.txt" % outn[0]), "w") as pf:
+                                    las.write(pf)
+                            except Exception:
+                                pass
                         cf = None if own else handles._real_open(path, "w")
 
                         def mk():
@@ -125,7 +135,7 @@ def run(ctx):
                             return las
                         mk.las = las
                         return mk, cf
-                    sweep(call, "%s/%s/%s" % (oname, kname, "path" if own else "callerfile"), factory)
+                    sweep(call, "%s/%s/%s%s" % (oname, kname, "path" if own else "callerfile", "/after-earlier-writes" if prior else ""), factory)
     shutil.rmtree(work, ignore_errors=True)
     fails, _ = ctx.validate("Trace_Handles", {"traces": traces})
     for tid, l, clause in fails:
